@@ -142,7 +142,7 @@ func splitSubscribeRequest(sctx *subContext, req *gnmi.SubscribeRequest) error {
 	sctx.treqs = make(map[string]*gnmi.SubscribeRequest)
 
 	subs := req.GetSubscribe()
-	prefixTarget := subs.Prefix.Target // fallback target for a single-target request
+	prefixTarget := subs.GetPrefix().GetTarget() // fallback target for a single-target request
 
 	// If the prefix names a target, it is assumed this is a single-target request and the original request
 	// becomes the request for that target.
@@ -154,7 +154,7 @@ func splitSubscribeRequest(sctx *subContext, req *gnmi.SubscribeRequest) error {
 	// Otherwise, iterate over the subscriptions and separate them into multiple subscription requests
 	// based on the target specified in each path using the original request as a template.
 	for _, sub := range subs.Subscription {
-		target := sub.Path.Target
+		target := sub.GetPath().GetTarget()
 		var tr *gnmi.SubscribeRequest
 		if target != "" {
 			ok := false
@@ -190,8 +190,8 @@ func splitSubscribeRequest(sctx *subContext, req *gnmi.SubscribeRequest) error {
 
 func copyPrefix(prefix *gnmi.Path, target string) *gnmi.Path {
 	return &gnmi.Path{
-		Origin: prefix.Origin,
-		Elem:   prefix.Elem,
+		Origin: prefix.GetOrigin(),
+		Elem:   prefix.GetElem(),
 		Target: target,
 	}
 }
